@@ -465,17 +465,19 @@ class C13(Check):
                 op = ("then", ch.choice(n, "then-on"), gen_handler(ch, reentrant),
                       gen_handler(ch, reentrant), cb_counter)
             elif k in (5, 6):
-                op = ("resolve", ch.choice(n, "resolve-which"), ch.choice(5, "val"))
+                # (values are unique per operation, so that the position of every result in a
+                # Promise.all list is attributable to one input)
+                op = ("resolve", ch.choice(n, "resolve-which"), 100 + len(ops))
             elif k == 7:
-                op = ("reject", ch.choice(n, "reject-which"), ch.choice(5, "val"))
+                op = ("reject", ch.choice(n, "reject-which"), 100 + len(ops))
             elif k == 8 and n < MAX_PROMISES:
-                m = ch.choice(4, "all-n")
+                m = ch.choice(6, "all-n")
                 op = ("all", [ch.choice(n, "all-i") for _ in range(m)])
             elif k == 9 and n < MAX_PROMISES:
                 m = ch.choice(4, "wait-n")
                 op = ("wait", [ch.choice(n, "wait-i") for _ in range(m)])
             else:
-                op = ("resolve", ch.choice(n, "resolve-which"), ch.choice(5, "val"))
+                op = ("resolve", ch.choice(n, "resolve-which"), 100 + len(ops))
             ops.append(op)
             before = ref.snapshot()
             for s in (real, ref):
